@@ -550,8 +550,15 @@ struct ChanHarness : Harness
             // reader activity level: lagging readers make the ring fill up
             int read_w = (int)g.range(1, 6), write_w = (int)g.range(1, 6);
             bool toggles = g.chance(0.3);
+            // the owner retires the lap now and then (what acquire_stop does
+            // once the workers are gone); only legal while no write is mapped
+            bool laps = g.chance(0.3);
             for (int i = 0; i < nops; ++i) {
                 int tot = read_w * 2 + write_w * 2 + (toggles ? 1 : 0);
+                if (laps && g.chance(0.08)) {
+                    p.ops.push_back("newlap");
+                    continue;
+                }
                 int x = (int)g.below((uint64_t)tot);
                 char b[128];
                 if (x < write_w) {
@@ -751,6 +758,13 @@ struct ChanHarness : Harness
                 collect();
                 hist("runmap %d @%llu", i,
                       (unsigned long long)m->rd[i].cursor);
+            } else if (op.name == "newlap") {
+                // contract: not while a write is mapped (or being waited for)
+                if (mb->busy || m->pending)
+                    continue;
+                channel_start_new_lap_if_drained(&m->ch);
+                probe("n.newlap_calls");
+                hist("newlap");
             } else if (op.name == "accept") {
                 int v = (int)op.i("v", 1);
                 channel_accept_writes(&m->ch, (uint32_t)v);
